@@ -177,3 +177,117 @@ def secondWire (sh : Bool) : Bytes :=
   "GET / HTTP/1.1\r\nhost: a\r\ncookie: c=1\r\nauthorization: s\r\n\r\n".toUTF8.toList
 #guard secondWire false == "GET /n HTTP/1.1\r\nhost: a\r\n\r\n".toUTF8.toList
 #guard secondWire true == "GET /n HTTP/1.1\r\nhost: a\r\nauthorization: s\r\n\r\n".toUTF8.toList
+
+/-! ## C15 along a real chain of exchanges (`ChainOK`, Props/C01): the method hop by hop -/
+
+theorem setHeader_method (r : AReq) (h : Hdr) : (r.setHeader h).1.method = r.method := by
+  unfold AReq.setHeader; split <;> rfl
+
+theorem ite_setHeader_method (b : Bool) (r : AReq) (h : Hdr) :
+    (if b then r.setHeader h else (r, Except.ok ())).1.method = r.method := by
+  split
+  · exact setHeader_method r h
+  · rfl
+
+theorem bodyHeader_method (b : Bool) (o : Option Hdr) (r : AReq) :
+    (if b then (match o with | some h => r.setHeader h | none => (r, Except.ok ())) else (r, Except.ok ())).1.method = r.method := by
+  split
+  · cases o with
+    | none => rfl
+    | some h => exact setHeader_method r h
+  · rfl
+
+/-- request analysis never touches the method -/
+theorem analyzeRequest_method (c : CallSt) : c.analyzeRequest.1.req.method = c.req.method := by
+  unfold CallSt.analyzeRequest
+  split
+  · rfl
+  · split
+    · rfl
+    · rename_i info _
+      have h1 := ite_setHeader_method (!info.reqHostHeader) c.req { name := "host", value := strBytes c.req.effUri.host }
+      generalize (if (!info.reqHostHeader) = true then c.req.setHeader { name := "host", value := strBytes c.req.effUri.host } else (c.req, Except.ok ())) = p1 at h1 ⊢
+      obtain ⟨req1, r1⟩ := p1
+      simp only [] at h1 ⊢
+      cases r1 with
+      | error f => exact h1
+      | ok u =>
+        simp only []
+        have h2 := bodyHeader_method (!info.reqBodyHeader && info.bodyMode.hasBody) info.bodyMode.bodyHeader req1
+        generalize (if (!info.reqBodyHeader && info.bodyMode.hasBody) = true then (match info.bodyMode.bodyHeader with | some h => req1.setHeader h | none => (req1, Except.ok ())) else (req1, Except.ok ())) = p2 at h2 ⊢
+        obtain ⟨req2, r2⟩ := p2
+        simp only [] at h2 ⊢
+        cases r2 with
+        | error f => exact h2.trans h1
+        | ok u => exact h2.trans h1
+
+theorem followRes_flow_method (req : AReq) (location : Option Bytes) (status : Nat) (sameHost : Bool) (g : Flow)
+    (h : followRes req location (some status) sameHost = .flow g) :
+    newMethodOf req.method status = some g.call.req.method := by
+  unfold followRes at h
+  repeat' split at h
+  all_goals (first | (simp at h; done) | skip)
+  all_goals (simp only [FollowRes.flow.injEq] at h; subst h; simp_all [followFlow, Flow.new])
+
+/-- the methods along a chain of hops: each hop's request has the method handed down, and the next hop's is
+    the table's entry for it and the status the hop was answered with -/
+def ChainMethods : Method → List Hop → Prop
+  | _, [] => True
+  | m, h :: rest => h.r.method = m ∧ (rest = [] ∨ ∃ m', newMethodOf m h.H.codeVal = some m' ∧ ChainMethods m' rest)
+
+/-- **C15 (along a real chain).** In every chain of covered exchanges — any number of hops, any schedules —
+    the method of each hop's request on the wire is the table's entry for the previous hop's method and the
+    status the previous hop was answered with; the first hop's is the caller's. -/
+theorem C15_chain_flows (hack : Bool) (hops : List Hop) : ∀ (f : Flow), ChainOK hack f hops →
+    ChainMethods f.call.req.method hops := by
+  induction hops with
+  | nil => intro f _; trivial
+  | cons h rest ih =>
+    intro f hok
+    obtain ⟨X, _, _, _, hnext⟩ := hok
+    have hm : h.r.method = f.call.req.method := by
+      rw [← X.send.hreq]; exact analyzeRequest_method f.call
+    refine ⟨hm, ?_⟩
+    rcases hnext with rfl | ⟨g, hg, hrest⟩
+    · exact Or.inl rfl
+    · refine Or.inr ⟨g.call.req.method, ?_, ih g hrest⟩
+      rw [← hm]; exact followRes_flow_method _ _ _ _ _ hg
+
+theorem ChainMethods_orig_or_get (hops : List Hop) : ∀ (m : Method), ChainMethods m hops →
+    ∀ hp ∈ hops, hp.r.method = m ∨ hp.r.method = .get := by
+  induction hops with
+  | nil => intro m _ hp hin; cases hin
+  | cons h rest ih =>
+    intro m hc hp hin
+    obtain ⟨hm, hnext⟩ := hc
+    rcases List.mem_cons.mp hin with rfl | hin
+    · exact Or.inl hm
+    · rcases hnext with rfl | ⟨m', hm', hrest⟩
+      · cases hin
+      · rcases ih m' hrest hp hin with e | e
+        · rcases newMethodOf_orig_or_get m m' _ hm' with e' | e'
+          · exact Or.inl (e.trans e')
+          · exact Or.inr (e.trans e')
+        · exact Or.inr e
+
+/-- **C15 (along a real chain: the caller's method or GET).** Whatever the servers answer and however the
+    I/O is sliced, every request of a redirect chain carries the caller's own method or GET. -/
+theorem C15_chain_flows_methods (hack : Bool) (hops : List Hop) (f : Flow) (hok : ChainOK hack f hops) :
+    ∀ hp ∈ hops, hp.r.method = f.call.req.method ∨ hp.r.method = .get :=
+  ChainMethods_orig_or_get hops _ (C15_chain_flows hack hops f hok)
+
+theorem ChainMethods_get (hops : List Hop) : ChainMethods .get hops → ∀ hp ∈ hops, hp.r.method = .get := by
+  intro h hp hin
+  rcases ChainMethods_orig_or_get hops .get h hp hin with e | e <;> exact e
+
+/-- **C15 (along a real chain: never replayed).** If the caller's request is a POST, PUT, PATCH or DELETE, every
+    request after the first hop of the chain is a GET. -/
+theorem C15_chain_flows_no_replay (hack : Bool) (h : Hop) (rest : List Hop) (f : Flow) (hok : ChainOK hack f (h :: rest))
+    (hm : f.call.req.method.needBody = true ∨ f.call.req.method = .delete) :
+    ∀ hp ∈ rest, hp.r.method = .get := by
+  obtain ⟨_, hnext⟩ := C15_chain_flows hack (h :: rest) f hok
+  rcases hnext with rfl | ⟨m', hm', hrest⟩
+  · intro hp hin; cases hin
+  · have : m' = .get := C15_chain_unsafe_to_get f.call.req.method m' h.H.codeVal [] hm (by simp [chainMethod, hm'])
+    subst this
+    exact ChainMethods_get rest hrest
